@@ -1,3 +1,244 @@
-/- Model for C04: not written yet -/
+/-
+Model of pkg/haproxy/types/maps.go for entries without header filters and without regex /
+wildcard hosts: `addTarget`, `buildMapKey`, `rebuildMatchFiles` (priority files created by
+`overlaps`, `_elem` / `_upper` as indices into the append-only priority list), per-file `sort`,
+and HAProxy's lookup semantics for `map_str`, `map_beg`, `map_dir` (trusted, from pattern.c).
+Strings are `List Char` (ASCII; Go's byte-wise comparison = code point comparison).  Core-only.
+-/
 namespace HapVerif.C04
+
+abbrev Str := List Char
+
+inductive MT | exact | pfx | beg
+deriving DecidableEq, Repr, Inhabited
+
+def lowerC (c : Char) : Char := if 'A' ≤ c ∧ c ≤ 'Z' then Char.ofNat (c.toNat + 32) else c
+def lower (s : Str) : Str := s.map lowerC
+
+/-- a rule as declared: host, path, path type, target id -/
+structure Rule where
+  host : Str
+  path : Str
+  mt : MT
+  target : Nat
+deriving DecidableEq, Repr
+
+structure Entry where
+  host : Str
+  path : Str          -- lower-cased for `begin`
+  mt : MT
+  order : Nat         -- insertion index (unique)
+  target : Nat
+  key : Str
+deriving DecidableEq, Repr
+
+def buildMapKey (host path : Str) : Str :=
+  if host ≠ [] ∧ path ≠ [] then host ++ '#' :: path else host ++ path
+
+def addTarget (r : Rule) (order : Nat) : Entry :=
+  let host := lower r.host
+  let path := if r.mt = .beg then lower r.path else r.path
+  { host, path, mt := r.mt, order, target := r.target, key := buildMapKey host path }
+
+def ltStr : Str → Str → Bool
+  | [], [] => false
+  | [], _ :: _ => true
+  | _ :: _, [] => false
+  | a :: as, b :: bs => if a.toNat < b.toNat then true else if b.toNat < a.toNat then false else ltStr as bs
+
+/-- `overlaps(e1, e2)` of maps.go -/
+def overlaps (e1 e2 : Entry) : Bool :=
+  e1.mt ≠ e2.mt && e1.path ≠ e2.path && e1.mt ≠ .exact && e2.mt ≠ .exact &&
+    (lower e2.path).isPrefixOf (lower e1.path)
+
+/-- the path comparison used to order the entries of one host before the overlap scan -/
+def pathGt (e1 e2 : Entry) : Bool := ltStr (lower e2.path) (lower e1.path)
+
+/-- the code before the repairs (historical witnesses only): case-preserving comparison -/
+def overlapsOld (e1 e2 : Entry) : Bool :=
+  e1.mt ≠ e2.mt && e1.path ≠ e2.path && e1.mt ≠ .exact && e2.mt ≠ .exact &&
+    e2.path.isPrefixOf e1.path
+def pathGtOld (e1 e2 : Entry) : Bool := ltStr e2.path e1.path
+
+/-- Go's insertion sort (what sort.Slice runs for n ≤ 12): stable -/
+def insertBy (lt : Entry → Entry → Bool) (x : Entry) : List Entry → List Entry
+  | [] => [x]
+  | y :: ys => if lt x y then x :: y :: ys else y :: insertBy lt x ys
+
+def sortBy (lt : Entry → Entry → Bool) (l : List Entry) : List Entry :=
+  l.foldl (fun acc x => insertBy lt x acc) []
+
+/-- a priority file: match type and its entries (in insertion order) -/
+structure PFile where
+  mt : MT
+  entries : List Entry
+deriving Repr
+
+/-- first index `≥ start` of a priority file with match type `mt` -/
+def findFrom (prio : List PFile) (mt : MT) (start : Nat) : Option Nat :=
+  ((List.range prio.length).drop start).find? fun j => (prio.getD j ⟨.exact, []⟩).mt = mt
+
+/-- `findOrCreateMatchFile(order, e1)`: returns the new list and the index used -/
+def findOrCreate (prio : List PFile) (e : Entry) (upper : Option Nat) : List PFile × Nat :=
+  match findFrom prio e.mt (upper.getD 0) with
+  | some j => (prio.modify j (fun f => { f with entries := f.entries ++ [e] }), j)
+  | none => (prio ++ [⟨e.mt, [e]⟩], prio.length)
+
+/-- `e2._upper = el1` — the repaired code keeps the later element -/
+def updUpper (old : Option Nat) (j : Nat) : Option Nat :=
+  match old with
+  | none => some j
+  | some u => if u ≤ j then some j else some u
+
+/-- before the repair: overwritten by the last overlapping entry -/
+def updUpperOld (_old : Option Nat) (j : Nat) : Option Nat := some j
+
+/-- the three places the repairs touched, as parameters -/
+structure Variant where
+  ov : Entry → Entry → Bool
+  gt : Entry → Entry → Bool
+  upd : Option Nat → Nat → Option Nat
+
+def current : Variant := ⟨overlaps, pathGt, updUpper⟩
+def beforeCaseFix : Variant := ⟨overlapsOld, pathGtOld, updUpper⟩
+def beforeUpperFix : Variant := ⟨overlaps, pathGt, updUpperOld⟩
+
+/-- the overlap scan of one host; `upper o` is the `_upper` of the entry with insertion index `o` -/
+def processHost (v : Variant) (prio : List PFile) (upper : Nat → Option Nat) : List Entry → List PFile
+  | [] => prio
+  | e1 :: rest =>
+    if rest.any (v.ov e1 ·) then
+      let r := findOrCreate prio e1 (upper e1.order)
+      processHost v r.1
+        (fun o => if rest.any (fun e2 => e2.order = o ∧ v.ov e1 e2) then v.upd (upper o) r.2 else upper o)
+        rest
+    else processHost v prio upper rest
+
+/-- hosts in first-insertion order -/
+def hostsOf (es : List Entry) : List Str := (es.map (·.host)).eraseDups
+
+/-- scan all hosts in the given iteration order (Go map order = any permutation) -/
+def buildPrio (v : Variant) (es : List Entry) (hostOrder : List Str) : List PFile :=
+  hostOrder.foldl (fun prio h =>
+    processHost v prio (fun _ => none) (sortBy v.gt (es.filter (·.host = h)))) []
+
+inductive Method | str | beg | dir
+deriving DecidableEq, Repr
+
+def methodOf : MT → Method
+  | .exact => .str | .pfx => .dir | .beg => .beg
+
+/-- an emitted map file -/
+structure MFile where
+  method : Method
+  lower : Bool
+  entries : List (Str × Nat)   -- key, target — in file order
+deriving DecidableEq, Repr
+
+/-- per-file sort of maps.go -/
+def fileLt (mt : MT) (a b : Entry) : Bool :=
+  match mt with
+  | .exact => if a.key = b.key then a.order < b.order else ltStr a.key b.key
+  | _ =>
+    if a.host = b.host then
+      (if a.path = b.path then a.order < b.order else ltStr b.path a.path)
+    else ltStr a.key b.key
+
+def mkFile (mt : MT) (es : List Entry) : MFile :=
+  { method := methodOf mt, lower := mt = .beg, entries := (sortBy (fileLt mt) es).map fun e => (e.key, e.target) }
+
+/-- `rebuildMatchFiles`: exact default file, priority files, default files in `matchOrder` -/
+def rebuildV (v : Variant) (matchOrder : List MT) (es : List Entry) (hostOrder : List Str) : List MFile :=
+  let prio := buildPrio v es hostOrder
+  let placed := prio.flatMap (·.entries) |>.map (·.order)
+  let rest := es.filter fun e => !placed.contains e.order
+  let dflt (mt : MT) : List MFile :=
+    let l := rest.filter (·.mt = mt)
+    if l.isEmpty then [] else [mkFile mt l]
+  (if matchOrder.contains .exact then dflt .exact else []) ++
+  prio.map (fun f => mkFile f.mt f.entries) ++
+  (matchOrder.filter (· ≠ .exact)).flatMap dflt
+
+/-- the current code -/
+def rebuild (matchOrder : List MT) (es : List Entry) (hostOrder : List Str) : List MFile :=
+  rebuildV current matchOrder es hostOrder
+
+def entriesOf (rules : List Rule) : List Entry :=
+  (rules.zip (List.range rules.length)).map fun (r, i) => addTarget r i
+
+/-! ## HAProxy lookup semantics (trusted: pattern.c `pat_match_str`, `pat_match_beg` with the
+longest-prefix tree used by `map_beg`, `pat_match_dir` = `match_word` with delimiter `/`) -/
+
+def stripSlash (p : Str) : Str := ((p.dropWhile (· = '/')).reverse.dropWhile (· = '/')).reverse
+
+/-- `match_word(sample, pattern, '/')` -/
+def wordMatchAux (p : Str) : Str → Bool → Bool
+  | [], _ => false
+  | c :: cs, may =>
+    if c = '/' then wordMatchAux p cs true
+    else if may then
+      (p.isPrefixOf (c :: cs) && (match (c :: cs).drop p.length with | [] => true | d :: _ => d = '/'))
+        || wordMatchAux p cs false
+    else wordMatchAux p cs false
+
+def wordMatch (pat sample : Str) : Bool :=
+  let p := stripSlash pat
+  if p.isEmpty then false else wordMatchAux p sample true
+
+def lookupFile (f : MFile) (sample : Str) : Option Nat :=
+  let s := if f.lower then lower sample else sample
+  match f.method with
+  | .str => (f.entries.find? fun e => e.1 = s).map (·.2)
+  | .dir => (f.entries.find? fun e => wordMatch e.1 s).map (·.2)
+  | .beg =>
+    (f.entries.foldl (fun (best : Option (Str × Nat)) e =>
+      if e.1.isPrefixOf s then
+        match best with
+        | some b => if b.1.length < e.1.length then some e else best
+        | none => some e
+      else best) none).map (·.2)
+
+/-- the frontend: first file that answers wins -/
+def lookupFiles (fs : List MFile) (sample : Str) : Option Nat :=
+  fs.findSome? (fun f => lookupFile f sample)
+
+def sampleOf (host path : Str) : Str := lower host ++ '#' :: path
+
+/-! ## Specification: exact first, then the longest declared path among the rules that match by
+their own type. -/
+
+/-- `path` lies under directory `dir` (ingress Prefix semantics; trailing `/` of `dir` ignored) -/
+def dirPrefix (dir path : Str) : Bool :=
+  let d := (dir.reverse.dropWhile (· = '/')).reverse
+  d.isPrefixOf path && (match path.drop d.length with | [] => true | c :: _ => c = '/')
+
+def ruleMatches (r : Rule) (host path : Str) : Bool :=
+  lower r.host = lower host &&
+  match r.mt with
+  | .exact => r.path = path
+  | .pfx => dirPrefix r.path path
+  | .beg => (lower r.path).isPrefixOf (lower path)
+
+/-- targets the property allows for a request; `[]` = no rule applies -/
+def best (rules : List Rule) (host path : Str) : List Nat :=
+  let ms := rules.filter (ruleMatches · host path)
+  let ex := ms.filter (·.mt = .exact)
+  if !ex.isEmpty then ex.map (·.target) else
+  let mx := (ms.map (·.path.length)).foldl max 0
+  (ms.filter (·.path.length = mx)).map (·.target)
+
+/-- verdict for one request against a layout -/
+def checkReq (rules : List Rule) (fs : List MFile) (host path : Str) : Option String :=
+  let got := lookupFiles fs (sampleOf host path)
+  let ok := best rules host path
+  match got with
+  | none => if ok.isEmpty then none else some "rule-applies-but-no-match"
+  | some t =>
+    if ok.contains t then none
+    else if ok.isEmpty then
+      (if rules.any (fun r => r.target = t ∧ lower r.host ≠ lower host) then some "cross-host-capture" else some "match-without-rule")
+    else if (rules.filter (ruleMatches · host path)).any (fun r => r.mt = .exact) then some "exact-not-selected"
+    else if rules.any (fun r => r.target = t ∧ lower r.host ≠ lower host) then some "cross-host-capture"
+    else some "shorter-path-wins"
+
 end HapVerif.C04
